@@ -29,7 +29,17 @@ fn prog_for(prop: &str, tier: u8, seed: u64, idx: usize) -> Prog {
     };
     let l = 1 + rng.below(2);
     let a = if rng.chance(1, 3) { Alpha { sc_only: true, ..a } } else { a };
-    random_prog(&mut rng, t, k, l, 6, a)
+    let mut p = random_prog(&mut rng, t, k, l, 6, a);
+    if prop == "C19" && idx % 3 == 0 {
+        // main = one access followed by 1-2 stores: the shape placement 7 (region after an explorable decision) decides
+        let first = if p.threads[0].first().map(|o| o.is_mem()).unwrap_or(false) { p.threads[0][0] } else { Op::Load { loc: 0, ord: Ord_::Rlx } };
+        let mut ops = vec![first];
+        for i in 0..1 + rng.below(2) {
+            ops.push(Op::Store { loc: rng.below(l) as u8, val: 50 + i as u64, ord: *rng.pick(&STORE_ORDS) });
+        }
+        p.threads[0] = ops;
+    }
+    p
 }
 
 pub fn total(prop: &str, tier: u8) -> usize {
@@ -326,8 +336,14 @@ fn c19(p: &Prog, rec: &mut Rec, tier: u8) {
     let l = base_rep.max_len;
     let mut region_effect = 0;
     // --- exploration controls
-    for ctrl in 1..=6u8 {
+    for ctrl in 1..=7u8 {
         if ctrl == 5 && p.threads.len() < 2 {
+            continue;
+        }
+        // placement 7 needs an explorable decision right before the region (a memory access as main's first operation)
+        // and, for its lower bound, a region without read decisions (stores only): inside a region a load takes its
+        // first candidate store, which need not be the latest one
+        if ctrl == 7 && (p.threads[0].len() < 2 || p.has_await() || !p.threads[0][0].is_mem() || !p.threads[0][1..].iter().all(|o| matches!(o, Op::Store { .. }))) {
             continue;
         }
         let mut cfg = base_cfg(tier);
@@ -360,12 +376,22 @@ fn c19(p: &Prog, rec: &mut Rec, tier: u8) {
             let lost: Vec<_> = base.outcomes.difference(&r.outcomes).take(3).collect();
             rec.v("ctrl_lost_outside_region", "", format!("ctrl {}: the region contains no decision with two alternatives, yet results were lost: {:?} ({} iterations vs {})", ctrl, lost, r.iters, base.iters));
         }
+        if ctrl == 7 {
+            // decisions outside the region stay explorable: every placement of main's block among the other threads'
+            // operations (the conflicts found inside the region backtrack to the explorable decision before it)
+            let must = crate::rc11::outcomes_sc_main_atomic(p);
+            let lost: Vec<_> = must.difference(&r.outcomes).take(3).collect();
+            if !lost.is_empty() {
+                rec.v("ctrl_lost_outside_region", "", format!("ctrl 7 (region around main's operations after its first one): placements of the region relative to the other threads were not explored, results lost: {:?} ({} iterations, unrestricted {})", lost, r.iters, base.iters));
+            }
+        }
         if must_equal && matches!(ctrl, 1 | 6) && r.iters != base.iters {
             rec.v("ctrl_lost_outside_region", "", format!("ctrl {}: {} iterations instead of {}", ctrl, r.iters, base.iters));
         }
         // fences are not decision points; a region is only expected to show up in the path when it holds a memory access
         let region_has_access = match ctrl {
             3 => p.threads[0].iter().any(|o| o.is_mem()),
+            7 => p.threads[0][1..].iter().any(|o| o.is_mem()),
             5 => p.threads[1].iter().any(|o| o.is_mem()),
             _ => false,
         };
